@@ -13,6 +13,18 @@ def scenarios(ctx):
     beh = R.tlc_behaviours(ctx, num=150 if quick else 1500, depth=16 if quick else 22, maxadmin=5, seed=ctx.seed)
     for i, steps in enumerate(beh):
         out.append({"id": "tlc-%d" % i, "cfg": {"subject": "rr", "table": i}, "steps": steps})
+    # (1b) every weight vector of the exhaustive bound, replayed completely: 2W+2 selections through NextServer and ServeHTTP
+    import itertools
+    maxn, maxw = (3, 4) if quick else (4, 5)
+    j = 0
+    for n in range(1, maxn + 1):
+        for ws in itertools.product(range(0, maxw + 1), repeat=n):
+            steps = R.pool_setup_steps(rng, list(ws), history=False)
+            W = R.W_of(ws)
+            via = "serve" if j % 3 == 0 else "pick"
+            steps += [{"op": via} for _ in range(2 * W + 2)]
+            out.append({"id": "all-%d" % j, "cfg": {"subject": "rr", "table": j}, "steps": steps, "weights": list(ws)})
+            j += 1
     # (2) seeded pools, large weights, 2W+k selections, through NextServer and through ServeHTTP
     n = 120 if quick else 1500
     wcap = 300 if quick else 3000
